@@ -30,12 +30,16 @@ def cases(tier, seed):
     out = []
     ns = (4, 5) if qk else (4, 5, 6, 7)
     for n in ns:
-        layouts = [(1,), (2,), (1, 1), (1, 2), (2, 1)] + ([(1, 1, 1), (2, 2)] if not qk else [])
+        layouts = [(1,), (2,), (1, 1), (1, 2), (2, 1), (3,)] + ([(1, 1, 1), (2, 2)] if not qk else [])
         for blocks in layouts:
             if sum(blocks) >= n:
                 continue
-            for deg in ("none", "pair"):
+            for deg in ("none", "pair", "nonadjacent", "descending"):
                 if deg == "pair" and max(blocks) < 2:
+                    continue
+                if deg == "nonadjacent" and blocks[0] < 3:
+                    continue
+                if deg == "descending" and (sum(blocks) < 2 or (qk and n > 4)):
                     continue
                 for dt in ("rr", "rc", "cc"):
                     for mode in ("herm", "nonherm", "nonherm-RL"):
@@ -67,6 +71,11 @@ def problem(case):
     blocks = case["blocks"]
     rng = np.random.default_rng([case["seed"], n, len(blocks), 61])
     E = np.array([float(x) for x in (0, 1, 3, 7, 12, 20, 33, 54)[:n]])
+    if case["deg"] == "nonadjacent":
+        E[2] = E[0]
+    elif case["deg"] == "descending":
+        nexp_ = sum(blocks)
+        E[:nexp_] = E[:nexp_][::-1].copy()
     if case["deg"] == "pair":
         off = 0
         for b in blocks:
